@@ -218,7 +218,7 @@ func (c *Ctx) finish(spec *propSpec, start time.Time, extra map[string]any) int 
 			continue
 		}
 		for i, k := range known {
-			if k.Kind == "finding" && k.Rule == o.Rule && k.Construct == o.Construct {
+			if k.Kind == "finding" && k.Rule == o.Rule && k.Construct == strings.ReplaceAll(o.Construct, " ", "") {
 				o.Verdict = KnownFinding
 				matched[i] = true
 			}
